@@ -25,29 +25,41 @@ type Clause struct {
 }
 
 type Contract struct {
-	Key      string // "Recv.Name" or "Name"
-	PkgPath  string
-	Requires []*Clause
-	Ensures  []*Clause
-	Modifies []ast.Expr
-	ModText  []string
-	LoopInv  map[int][]*Clause
-	LoopMod  map[int][]ast.Expr // explicit loop frame (optional)
-	Reveal   map[string]bool
-	Inline   bool
-	Trusted  bool
-	Pure     bool // no side effects; may be used as UF when opaque
-	MayNil   map[string]bool
-	MayAlias bool
-	Mode     string
-	Split    []*Clause
-	Lemma    bool
-	LParams  []LemmaParam
-	Src      string
-	Asserts  map[string][]*Clause // label -> assertions (unused)
-	NoPanic  bool
-	Timeout  int
-	Solvers  []string
+	Key        string // "Recv.Name" or "Name"
+	PkgPath    string
+	Requires   []*Clause
+	Ensures    []*Clause
+	Modifies   []ast.Expr
+	ModText    []string
+	LoopInv    map[int][]*Clause
+	LoopMod    map[int][]ast.Expr // explicit loop frame (optional)
+	Reveal     map[string]bool
+	Inline     bool
+	Trusted    bool
+	Pure       bool // no side effects; may be used as UF when opaque
+	MayNil     map[string]bool
+	MayAlias   bool
+	Mode       string
+	Split      []*Clause
+	Lemma      bool
+	LParams    []LemmaParam
+	Src        string
+	Asserts    map[string][]*Clause // label -> assertions (unused)
+	NoPanic    bool
+	Cuts       []*Cut
+	JoinSwitch bool
+	Timeout    int
+	Solvers    []string
+}
+
+// Cut is an intermediate assertion anchored before the statement whose source text starts
+// with Anchor: it is proved with Reveal added to the function's reveal set and then assumed
+// as evaluated under the function's own reveal set (two-level opaque/reveal reasoning).
+type Cut struct {
+	Anchor string
+	Reveal map[string]bool
+	Clause *Clause
+	Ord    int
 }
 
 type LemmaParam struct {
@@ -55,7 +67,7 @@ type LemmaParam struct {
 	Type ast.Expr
 }
 
-var clauseKeywords = []string{"requires", "ensures", "modifies", "loop", "reveal", "inline", "trusted", "pure", "maynil", "mayalias", "mode", "split", "timeout", "solvers"}
+var clauseKeywords = []string{"requires", "ensures", "modifies", "loop", "reveal", "inline", "trusted", "pure", "maynil", "mayalias", "mode", "split", "timeout", "solvers", "cut", "joinswitch"}
 
 // parseContractComments extracts contract blocks from a file's comments.
 func parseContractComments(fset *token.FileSet, f *ast.File, pkgPath string) ([]*Contract, error) {
@@ -261,6 +273,41 @@ func (c *Contract) addClause(kw, text, src string) error {
 		for _, n := range strings.FieldsFunc(text, func(r rune) bool { return r == ',' || r == ' ' }) {
 			c.Reveal[n] = true
 		}
+	case "joinswitch":
+		c.JoinSwitch = true
+	case "cut":
+		// cut "<stmt prefix>" [reveal a, b]: E
+		t := strings.TrimSpace(text)
+		if !strings.HasPrefix(t, "\"") {
+			return fmt.Errorf("%s: cut: want quoted statement anchor", src)
+		}
+		end := strings.Index(t[1:], "\"")
+		if end < 0 {
+			return fmt.Errorf("%s: cut: unterminated anchor", src)
+		}
+		anchor := t[1 : 1+end]
+		rest := strings.TrimSpace(t[end+2:])
+		cut := &Cut{Anchor: anchor, Reveal: map[string]bool{}, Ord: len(c.Cuts)}
+		if strings.HasPrefix(rest, "reveal") {
+			i := strings.Index(rest, ":")
+			if i < 0 {
+				return fmt.Errorf("%s: cut: missing ':'", src)
+			}
+			for _, n := range strings.FieldsFunc(rest[len("reveal"):i], func(r rune) bool { return r == ',' || r == ' ' }) {
+				cut.Reveal[n] = true
+			}
+			rest = rest[i:]
+		}
+		if !strings.HasPrefix(rest, ":") {
+			return fmt.Errorf("%s: cut: missing ':'", src)
+		}
+		text = strings.TrimSpace(rest[1:])
+		cl, err := mk("cut", cut.Ord)
+		if err != nil {
+			return err
+		}
+		cut.Clause = cl
+		c.Cuts = append(c.Cuts, cut)
 	case "inline":
 		c.Inline = true
 	case "trusted":
